@@ -588,6 +588,11 @@ class Engine:
 
     def assert_(self, cond, tag):
         st = self.stats
+        tf = self.opt.get('tag_filter')
+        if tf and not tag.startswith(tuple(tf)):
+            # assertion owned by another check that runs the same harness: neither checked nor assumed here
+            st.foreign = getattr(st, 'foreign', 0) + 1
+            return
         st.obligations += 1
         st.oblig_tags[tag] = st.oblig_tags.get(tag, 0) + 1
         cond = self.simp_bool(cond)
